@@ -509,16 +509,16 @@ Lemma Done_inj a b : Done a = Done b -> a = b.
 Proof. intros H. injection H as H. exact H. Qed.
 
 (** ** no primary error anywhere: validateArguments, validateValues and validateVariables are silent *)
-Theorem no_primary_then_rules_silent pi S F D errs :
-  order_ok pi -> schema_ok S = true -> schema_args_ok S = true ->
-  all_rules repaired pi S F (pti_doc (q_unwrap_obj repaired) S F D) = Done errs -> primary errs = [] ->
+Theorem no_primary_then_rules_silent_gen pi S F D rf errs :
+  order_ok pi -> schema_ok S = true -> schema_args_ok S = true -> fields_prefix S F D rf ->
+  rules_with repaired pi S F (pti_doc (q_unwrap_obj repaired) S F D) rf = Done errs -> primary errs = [] ->
   rule_arguments repaired pi S (pti_doc (q_unwrap_obj repaired) S F D) = Done [] /\
   rule_values repaired pi S (pti_doc (q_unwrap_obj repaired) S F D) = Done [] /\
   rule_variables pi S (pti_doc (q_unwrap_obj repaired) S F D) = Done [].
 Proof.
-  intros Hpi Hs Hargs Hall Hprim.
-  destruct (no_primary_then_silent pi S F D errs Hpi Hs Hall Hprim) as [Hroot [Hgood [Hpass [Hdecl [Hdir Hsp]]]]].
-  destruct (all_rules_split _ _ _ _ _ _ Hall) as [e1 [e2 [e3 [e5 [e6 [e7 [e8 [R1 [R2 [R3 [R5 [R6 [R7 [R8 ->]]]]]]]]]]]]]].
+  intros Hpi Hs Hargs Hrf Hall Hprim.
+  destruct (no_primary_then_silent_gen pi S F D rf errs Hpi Hs Hrf Hall Hprim) as [Hroot [Hgood [Hpass [Hdecl [Hdir Hsp]]]]].
+  destruct (rules_with_split _ _ _ _ _ _ _ Hall) as [e1 [e2 [e3 [e5 [e6 [e7 [e8 [R1 [R2 [R3 [R5 [R6 [R7 [R8 ->]]]]]]]]]]]]]].
   rewrite !primary_app_nil in Hprim. destruct Hprim as [P1 [P2 [P3 [[P4 P5] [P6 [P7 P8]]]]]].
   unfold schema_ok in Hs. apply andb_true_iff in Hs as [Hs Hs3]. apply andb_true_iff in Hs as [Hs1 Hs2].
   pose proof (schema_no_typename_spec S F Hs1) as Hnt. pose proof (schema_input_closed_spec S Hs2) as Hic.
@@ -544,4 +544,15 @@ Proof.
   - rewrite rule_values_eq. f_equal. apply (values_all_silent pi Hpi S F D Hic Hnt Hargs Hfk Hdk Hak Hvp).
     apply (defaults_typed pi S F D e8 R8 P8).
   - rewrite R8. f_equal. apply (variables_all_silent pi Hpi S F D Hic Hnt Hargs Hfk Hdk Hak Hvp e8 R8 P8).
+Qed.
+
+Theorem no_primary_then_rules_silent pi S F D errs :
+  order_ok pi -> schema_ok S = true -> schema_args_ok S = true ->
+  all_rules repaired pi S F (pti_doc (q_unwrap_obj repaired) S F D) = Done errs -> primary errs = [] ->
+  rule_arguments repaired pi S (pti_doc (q_unwrap_obj repaired) S F D) = Done [] /\
+  rule_values repaired pi S (pti_doc (q_unwrap_obj repaired) S F D) = Done [] /\
+  rule_variables pi S (pti_doc (q_unwrap_obj repaired) S F D) = Done [].
+Proof.
+  intros Hpi Hs Hargs Hall Hprim. rewrite all_rules_with in Hall.
+  apply (no_primary_then_rules_silent_gen pi S F D _ errs Hpi Hs Hargs (rule_fields_prefix pi S F D) Hall Hprim).
 Qed.
